@@ -382,7 +382,17 @@ def c11_battery(binary):
         open(os.path.join(root, "a", "plain"), "wb").write(b"A" * 1000)
         open(os.path.join(root, "b", "padded"), "wb").write(b"A" * 1000 + b"X" * 2000)
 
+    def mk_long(root):
+        # a retained file whose name is close to NAME_MAX, short names for the files that get replaced
+        os.makedirs(root)
+        open(os.path.join(root, "a" * 240), "wb").write(b"L" * 700)
+        open(os.path.join(root, "b_short"), "wb").write(b"L" * 700)
+        open(os.path.join(root, "c_short"), "wb").write(b"L" * 700)
+        for g in ("x1", "x2"):
+            open(os.path.join(root, g), "wb").write(b"O" * 300)
+
     scenarios = [
+        ("a retained file with a 240-byte name", mk_long, [], [["link"], ["link", "--soft"], ["remove"]]),
         ("plain", mk_plain, [], [["remove"], ["link"], ["link", "--soft"], ["remove", "--keep-name", "g1_*"], ["remove", "--keep-name", "g2_*"],
                                  ["remove", "--keep-path", "**/a/*", "--keep-path", "**/b/*", "--keep-path", "**/c/g1*"], ["remove", "-n", "2"], ["link", "--priority", "newest"]]),
         ("hostile names", mk_hostile, [], [["remove"], ["link"], ["link", "--soft"]]),
